@@ -228,7 +228,46 @@ theorem include_path_confined_config (entries : List CStr) (base name p : CStr)
       obtain ⟨e, _, he⟩ := List.mem_filterMap.mp hd
       exact inc_dir_ok e d he) hp
 
+/-- the same for ANY configured `IncludeDir` string (`set_inc_list` splits it at ':'; dropped entries are skipped) -/
+theorem include_path_confined_any_config (cfg base name p : CStr)
+    (hp : p ∈ incTries true (((incListOf cfg).getD []).filterMap id) base name) : safe p = true := by
+  apply include_path_confined _ base name p _ hp
+  intro d hd
+  unfold incListOf at hd
+  split at hd
+  · simp at hd
+  · simp only [Option.getD_some, List.mem_filterMap, List.mem_map, id_eq, exists_eq_right] at hd
+    obtain ⟨e, _, he⟩ := hd
+    exact inc_dir_ok e d he
+
+/-- the oracle accepts what the model of `set_inc_list` stores, for every configuration string: no stored entry is
+    empty, absolute or has a ".." component -/
+theorem judge_il_model (list : CStr) : judgeEv [.il list ((incListOf list).getD [])] = [] := by
+  have h : ((incListOf list).getD []).find? badIncEntry = none := by
+    rw [List.find?_eq_none]
+    intro e he
+    unfold incListOf at he
+    split at he
+    · simp at he
+    · simp only [Option.getD_some, List.mem_map] at he
+      obtain ⟨x, _, rfl⟩ := he
+      cases hx : incDirOf x with
+      | none => simp [badIncEntry]
+      | some d =>
+        obtain ⟨h1, h2⟩ := inc_dir_ok x d hx
+        have := legal_path_safe d h2
+        simp [badIncEntry, this, h1]
+  unfold judgeEv
+  simp only [List.foldl_cons, List.foldl_nil, judgeStep]
+  rw [h]
+  rfl
+
+example : judgeEv [.il (str "/..") [some (str "..")]] ≠ [] := by decide
+example : judgeEv [.il (str "//x") [some (str "/x")]] ≠ [] := by decide
+
 example : [str "/include", str "/", str "/a/../b"].filterMap incDirOf = [str "include", str "."] := by decide
+example : incListOf (str "/include:/:/a/../b::x") =
+    some [some (str "include"), some (str "."), none, some (str "."), some (str "x")] := by decide
 
 example : incTries true [str "include"] (str "room/x.c") (str "../std.h") = [str "std.h"] := by decide
 example : incTries true [str "include"] (str "room/x.c") (str "std.h") = [str "room/std.h", str "include/std.h"] := by
